@@ -43,7 +43,12 @@ def replay(path, seed):
     rep.replay_of = path
     wd = vlib.scratch_dir("c02r")
     try:
-        _table(rep, "quick", seed, replay_in=tables.replay_line(json.load(open(path)), wd))
+        payload = json.load(open(path))
+        _table(rep, "quick", seed, replay_in=tables.replay_line(payload, wd))
+        if not rep.violations:
+            # the line alone passes: the finding may depend on calls made before it (state kept across calls) - the whole
+            # table of the seed that found it is run again
+            _table(rep, "quick", payload.get("seed", seed))
     finally:
         shutil.rmtree(wd, ignore_errors=True)
     return rep.finish()
